@@ -9,7 +9,7 @@ BEGIN, END = "<!-- matrix:begin -->", "<!-- matrix:end -->"
 
 def own_of(k):
     if k.startswith("D"):
-        meta = {"D4": "C20", "D9": "C20", "D12": "C06", "D14": "C20"}
+        meta = {"D4": "C20", "D9": "C20", "D12": "C06", "D14": "C20", "D16": "C17"}
         return meta.get(k, "C19")
     return k[:3]
 
